@@ -130,6 +130,32 @@ where
         })
     }
 }
+/// `->` on the plain `Rv` an awaited head yields
+pub fn tw(id: u16) -> impl Fn(Rv) -> BF + Copy + Send + 'static {
+    eval_point(id);
+    move |r| {
+        let (f, r2) = match r {
+            Ok(v) => {
+                let mut h = vec![OKM];
+                h.extend_from_slice(&v.h);
+                let f = call_point_a(id, &h);
+                (f, if f & FAIL != 0 { Err(v.fail(id)) } else { Ok(v.push(id)) })
+            }
+            Err(e) => {
+                let mut h = vec![ERRM];
+                h.extend_from_slice(&e.h);
+                let f = call_point_a(id, &h);
+                (f, Err(e.push(id)))
+            }
+        };
+        let _ = f;
+        Box::pin(async move {
+            gate_wait(id).await;
+            log(K::Ready, id, &[]);
+            r2
+        })
+    }
+}
 /// `->` on a `Val` inside `=> >>>`
 pub fn tva(id: u16) -> impl Fn(Val) -> BF + Copy + Send + 'static {
     qa(id)
